@@ -11,8 +11,10 @@ Use from a property script:   import chainb; chainb.obligations(ctx); chainb.tie
 SLAB_NODES is 128 in the tree and is not shrunk under cfg(loom): slab recycling / pool overflow are reached by
 the fixed corpus cases corpus/chainb/{recycle,pool_overflow}.case (batches of 129..1300 values).
 """
-import os, subprocess
+import os, subprocess, sys
 from vlib import VERIF
+sys.path.insert(0, os.path.dirname(__file__))
+import chanlib   # monitor lines are judged per property (prop_of) and matched against the known-finding families
 
 THEOREMS = [l.strip() for l in open(os.path.join(VERIF, "props", "chainb.theorems")) if l.strip() and not l.startswith("#")]
 MODULE = "Fv.Props.ChainB"
@@ -51,7 +53,7 @@ def tie(ctx, cases=None):
     h = ctx.cargo_build("chan", "chanh", rustflags="--cfg loom")
     ctx.assumptions += [a for a in ASSUMPTIONS if a not in ctx.assumptions]
     if ctx.replay:
-        return [ctx.tie("chainb-replay", [h, "run", ctx.replay, "--atomics"], [drv])]
+        return [chanlib.tie(ctx, "chainb-replay", [h, "run", ctx.replay, "--atomics"], [drv])]
     ts = []
     ok = selftest_layout(drv, h)
     ctx.extra.setdefault("chainb", {})["layout_selftest_detects_reordering"] = ok
@@ -59,10 +61,10 @@ def tie(ctx, cases=None):
         ctx.notes.append("chainb: layout self-test did NOT detect a reordered construction")
     for f in sorted(os.listdir(CORPUS)):
         if f.endswith(".case"):
-            ts.append(ctx.tie("chainb-corpus-" + f[:-5], [h, "run", os.path.join(CORPUS, f), "--atomics"], [drv]))
+            ts.append(chanlib.tie(ctx, "chainb-corpus-" + f[:-5], [h, "run", os.path.join(CORPUS, f), "--atomics"], [drv]))
     n = cases or (1500 if ctx.quick else 30000)
     for mode in ("seq", "conc", "async"):
-        ts.append(ctx.tie("chainb-atomic-steps-" + mode,
+        ts.append(chanlib.tie(ctx, "chainb-atomic-steps-" + mode,
                           [h, "gen", "--seed", str(ctx.seed), "--cases", str(n), "--mode", mode, "--flavours", FLAVOURS, "--atomics"]
                           + ([] if ctx.quick else ["--tier", "thorough"]),
                           [drv], timeout=3000))
